@@ -268,8 +268,11 @@ func (r *run) exec() {
 	// faults, 5 s rounds): half an hour of idling with unfinished tasks is a hang
 	r.rc.Sched.MaxVirtual = 30 * time.Minute
 	r.w = sim.NewWorld(env, r.rc.Scratch)
-	r.w.Register(&sim.Node{Type: "sim", Name: "src"})
-	r.w.Register(&sim.Node{Type: "sim", Name: "dst"})
+	r.w.Register(&sim.Node{Type: "sim", Name: "src", ShortPages: r.cfg.SrcShort})
+	r.w.Register(&sim.Node{Type: "sim", Name: "dst", ShortPages: r.cfg.DstShort})
+	if r.cfg.SrcShort > 0 || r.cfg.DstShort > 0 {
+		out.Reached["stores-sending-short-enumeration-pages"]++
+	}
 	if r.cfg.Dests == 2 {
 		r.w.Register(&sim.Node{Type: "sim", Name: "dst2"})
 	}
